@@ -1027,3 +1027,304 @@ Proof.
 Qed.
 
 End Scores.
+
+(* ------------------------------------------------------------------ association lists, node sets *)
+Lemma aget_aset : forall {A} (l : list (N * A)) k a i,
+  aget (aset l k a) i = if (k =? i)%N then Some a else aget l i.
+Proof.
+  induction l as [|[k' a'] l IH]; intros k a i; simpl.
+  - reflexivity.
+  - destruct (N.eqb_spec k' k) as [->|Hn]; simpl.
+    + destruct (N.eqb_spec k i); reflexivity.
+    + rewrite IH. destruct (N.eqb_spec k' i) as [->|Hn']; [|reflexivity].
+      destruct (N.eqb_spec k i); [subst; contradiction|reflexivity].
+Qed.
+
+Lemma aget_adel : forall {A} (l : list (N * A)) k i,
+  aget (adel l k) i = if (k =? i)%N then None else aget l i.
+Proof.
+  induction l as [|[k' a'] l IH]; intros k i; simpl.
+  - destruct (k =? i)%N; reflexivity.
+  - destruct (N.eqb_spec k' k) as [->|Hn]; simpl.
+    + rewrite IH. destruct (N.eqb_spec k i); reflexivity.
+    + rewrite IH. destruct (N.eqb_spec k' i) as [->|Hn']; [|reflexivity].
+      destruct (N.eqb_spec k i); [subst; contradiction|reflexivity].
+Qed.
+
+Lemma aget_None : forall {A} (l : list (N * A)) k, aget l k = None <-> ~ In k (map fst l).
+Proof.
+  induction l as [|[k' a'] l IH]; intro k; simpl; [tauto|].
+  destruct (N.eqb_spec k' k) as [->|Hn]; [split; [discriminate|intro H; exfalso; apply H; now left]|].
+  rewrite IH. split; [intros H [E|E]; [contradiction|contradiction]|tauto].
+Qed.
+
+Lemma map_fst_aset : forall {A} (l : list (N * A)) k a,
+  map fst (aset l k a) = if memN k (map fst l) then map fst l else map fst l ++ [k].
+Proof.
+  induction l as [|[k' a'] l IH]; intros k a; simpl; [reflexivity|].
+  unfold memN. simpl. rewrite (N.eqb_sym k k'). destruct (N.eqb_spec k' k) as [->|Hn]; simpl; [reflexivity|].
+  rewrite IH. unfold memN. destruct (existsb (N.eqb k) (map fst l)); reflexivity.
+Qed.
+
+Lemma dedupN_app_fresh : forall l a, ~ In a l -> dedupN (l ++ [a]) = dedupN l ++ [a].
+Proof.
+  induction l as [|b l IH]; intros a Ha; simpl.
+  - reflexivity.
+  - rewrite IH by (intro; apply Ha; now right). rewrite filter_app. simpl.
+    destruct (N.eqb_spec a b) as [->|Hn]; [exfalso; apply Ha; now left|reflexivity].
+Qed.
+
+Lemma dedupN_app_dup : forall l x, In x l -> dedupN (l ++ [x]) = dedupN l.
+Proof.
+  induction l as [|a l IH]; intros x Hx; [destruct Hx|]. simpl.
+  destruct (in_dec N.eq_dec x l) as [Hin|Hnin].
+  - rewrite IH by assumption. reflexivity.
+  - destruct Hx as [->|Hx]; [|contradiction].
+    rewrite dedupN_app_fresh by assumption. rewrite filter_app. simpl. rewrite N.eqb_refl. simpl.
+    rewrite app_nil_r. reflexivity.
+Qed.
+
+Section Ops.
+Variable ln1p : N -> R.
+Hypothesis Hln : forall x, 0 <= ln1p x.
+
+Notation stepR := (@step RF ln1p).
+Notation runR := (@run RF ln1p).
+
+Definition with_stats (st : state RF) (i : N) (u : supd) : state RF := fst (stepR st (UpdStats i u)).
+
+Lemma with_stats_local : forall st i u, st_local (with_stats st i u) = st_local st. Proof. reflexivity. Qed.
+Lemma with_stats_pre : forall st i u, st_pre (with_stats st i u) = st_pre st. Proof. reflexivity. Qed.
+Lemma with_stats_cache : forall st i u, st_cache (with_stats st i u) = st_cache st. Proof. reflexivity. Qed.
+
+Lemma with_stats_of : forall st i u j,
+  @stats_of RF (with_stats st i u) j = if (i =? j)%N then apply_upd (@stats_of RF st i) u else @stats_of RF st j.
+Proof.
+  intros. unfold with_stats, stats_of at 1. cbn [step fst st_stats]. rewrite aget_aset.
+  destruct (i =? j)%N; reflexivity.
+Qed.
+
+Lemma with_stats_In : forall st i u, In i (@node_set RF (with_stats st i u)).
+Proof.
+  intros. unfold node_set. apply dedupN_In. apply in_or_app. right. unfold with_stats. cbn [step fst st_stats].
+  rewrite map_fst_aset. destruct (memN i (map fst (st_stats st))) eqn:E; [apply memN_In; assumption|].
+  apply in_or_app. right. now left.
+Qed.
+
+(* statistics about a node that is already known do not change the node set *)
+Lemma with_stats_node_set : forall st i u, In i (@node_set RF st) -> @node_set RF (with_stats st i u) = @node_set RF st.
+Proof.
+  intros st i u Hi. unfold node_set in *. unfold with_stats. cbn [step fst st_stats st_local].
+  rewrite map_fst_aset. destruct (memN i (map fst (st_stats st))) eqn:E; [reflexivity|].
+  rewrite app_assoc. apply dedupN_app_dup. apply (proj1 (dedupN_In _ _)) in Hi. exact Hi.
+Qed.
+
+(* two different reports about the same node give the same node set *)
+Lemma with_stats_node_set2 : forall st i u u', @node_set RF (with_stats st i u) = @node_set RF (with_stats st i u').
+Proof.
+  intros. unfold node_set, with_stats. cbn [step fst st_stats st_local]. rewrite !map_fst_aset. reflexivity.
+Qed.
+
+Lemma wf_init : forall pre, wf (@init RF pre).
+Proof. intro pre. unfold wf, init. cbn [st_pre]. apply dedupN_NoDup. Qed.
+
+Lemma wf_step : forall st o, wf st -> wf (fst (stepR st o)).
+Proof.
+  intros st o H. unfold wf in *. destruct o; cbn [step fst st_pre]; try assumption.
+  - destruct (memN i (st_pre st)) eqn:E; [assumption|]. apply NoDup_app_disj; [assumption|constructor; [intros []|constructor]|].
+    intros x Hx [->|[]]. apply memN_false in E. contradiction.
+  - apply NoDup_filter. assumption.
+Qed.
+
+Lemma run_cons : forall st o ops,
+  runR st (o :: ops) = (fst (runR (fst (stepR st o)) ops), snd (stepR st o) :: snd (runR (fst (stepR st o)) ops)).
+Proof.
+  intros. cbn [run]. destruct (stepR st o) as [st1 r]. cbn [fst snd]. destruct (runR st1 ops); reflexivity.
+Qed.
+
+Lemma wf_run : forall ops st, wf st -> wf (fst (runR st ops)).
+Proof.
+  induction ops as [|o ops IH]; intros st H; [exact H|]. rewrite run_cons. cbn [fst]. apply IH, wf_step, H.
+Qed.
+
+(* ---- every computed map is well formed ---- *)
+Definition good_map (m : vec RF) : Prop :=
+  (forall i x, In (i, x) m -> 0 <= x <= 1) /\
+  (Rsum (map snd m) = 1 \/ forall i x, In (i, x) m -> x = 0).
+
+Lemma global_trust_good : forall st d, wf st -> 0 <= d -> good_map (@global_trust RF ln1p st d).
+Proof.
+  intros st d Hwf Hd. destruct (list_eq_dec N.eq_dec (@node_set RF st) []) as [E|Hne].
+  - unfold global_trust. rewrite E. split; [intros i x []|right; intros i x []].
+  - rewrite (global_trust_R ln1p st d Hwf Hne). destruct (scores_dist ln1p Hln st d Hwf Hne Hd) as [A B]. split.
+    + intros i x Hin. apply in_map_iff in Hin. destruct Hin as [j [E Hj]]. inversion E; subst. apply A, Hj.
+    + rewrite map_snd_map_keys. destruct B as [B|B]; [left; exact B|right].
+      intros i x Hin. apply in_map_iff in Hin. destruct Hin as [j [E Hj]]. inversion E; subst. apply B, Hj.
+Qed.
+
+Definition decay_ok (o : op RF) : Prop := match o with Compute d => 0 <= d | _ => True end.
+
+Lemma run_good : forall ops st, wf st -> Forall decay_ok ops ->
+  forall m, In (OMap m) (snd (runR st ops)) -> good_map m.
+Proof.
+  induction ops as [|o ops IH]; intros st Hwf Hd m Hin; [destruct Hin|].
+  rewrite run_cons in Hin. cbn [snd] in Hin. inversion Hd as [|? ? Ho Hd']; subst. destruct Hin as [E|Hin].
+  - destruct o; cbn [step snd] in E; try discriminate. inversion E; subst. apply global_trust_good; assumption.
+  - apply (IH (fst (stepR st o))); [apply wf_step; assumption|assumption|assumption].
+Qed.
+
+(* ---- the clock cancels ---- *)
+Lemma global_trust_decay : forall st d1 d2, wf st -> 0 < d1 -> 0 < d2 ->
+  @global_trust RF ln1p st d1 = @global_trust RF ln1p st d2.
+Proof.
+  intros st d1 d2 Hwf H1 H2. destruct (list_eq_dec N.eq_dec (@node_set RF st) []) as [E|Hne].
+  - unfold global_trust. rewrite E. reflexivity.
+  - rewrite !(global_trust_R ln1p) by assumption. apply map_ext. intro i.
+    rewrite (score_decay_irrelevant ln1p Hln st d1 d2 i); try assumption. reflexivity.
+Qed.
+
+Definition undecay (o : op RF) : op RF := match o with Compute _ => @Compute RF 1 | o => o end.
+Definition decay_pos (o : op RF) : Prop := match o with Compute d => 0 < d | _ => True end.
+
+Lemma run_undecay : forall ops st, wf st -> Forall decay_pos ops -> runR st (map undecay ops) = runR st ops.
+Proof.
+  induction ops as [|o ops IH]; intros st Hwf Hd; [reflexivity|]. inversion Hd as [|? ? Ho Hd']; subst.
+  cbn [map]. rewrite !run_cons.
+  assert (E : stepR st (undecay o) = stepR st o).
+  { destruct o; try reflexivity. cbn [undecay step]. rewrite (global_trust_decay st 1 d Hwf); [reflexivity|lra|exact Ho]. }
+  rewrite E. rewrite IH; [reflexivity|apply wf_step; assumption|assumption].
+Qed.
+
+(* ---- the cache: get_trust answers the last published score ---- *)
+Lemma publish_get : forall (m c : vec RF) i, NoDup (map fst m) ->
+  aget (@publish RF c m) i = match aget m i with Some x => Some x | None => aget c i end.
+Proof.
+  induction m as [|[k a] m IH]; intros c i Hnd; [reflexivity|].
+  inversion Hnd as [|? ? Hk Hnd']; subst. unfold publish in *. cbn [fold_left fst snd]. rewrite IH by assumption.
+  cbn [aget]. destruct (N.eqb_spec k i) as [->|Hn].
+  - rewrite (proj2 (aget_None m i) Hk). rewrite aget_aset, N.eqb_refl. reflexivity.
+  - destruct (aget m i); [reflexivity|]. rewrite aget_aset. destruct (N.eqb_spec k i); [contradiction|reflexivity].
+Qed.
+
+Lemma global_trust_keys : forall st d, wf st ->
+  map fst (@global_trust RF ln1p st d) = match @node_set RF st with [] => [] | _ => @keys RF st end.
+Proof.
+  intros st d Hwf. destruct (list_eq_dec N.eq_dec (@node_set RF st) []) as [E|Hne].
+  - unfold global_trust. rewrite E. reflexivity.
+  - rewrite (global_trust_R ln1p st d Hwf Hne). rewrite map_map. cbn [fst]. rewrite map_id.
+    destruct (@node_set RF st); [contradiction|reflexivity].
+Qed.
+
+Lemma global_trust_nodup : forall st d, wf st -> NoDup (map fst (@global_trust RF ln1p st d)).
+Proof.
+  intros st d Hwf. rewrite global_trust_keys by assumption.
+  destruct (@node_set RF st) eqn:E; [constructor|]. apply sf_ks. exact Hwf.
+Qed.
+
+Definition answer (st : state RF) (i : N) : R :=
+  match aget (st_cache st) i with Some x => x | None => @of_Q RF TRUST_UNKNOWN_SCORE end.
+
+Lemma query_answer : forall st i, stepR st (Query i) = (st, @OVal RF (answer st i)).
+Proof. reflexivity. Qed.
+
+(* right after a computation every id of the returned map reads its returned score *)
+Lemma compute_then_query : forall st d i, wf st ->
+  In i (map fst (@global_trust RF ln1p st d)) ->
+  answer (fst (stepR st (Compute d))) i = V (@global_trust RF ln1p st d) i.
+Proof.
+  intros st d i Hwf Hi. unfold answer. cbn [step fst st_cache]. rewrite publish_get by (apply global_trust_nodup; assumption).
+  unfold V, vget. destruct (aget (@global_trust RF ln1p st d) i) eqn:E; [reflexivity|].
+  apply aget_None in E. contradiction.
+Qed.
+
+(* operations that leave the published score of [i] alone *)
+Definition keeps (i : N) (o : op RF) : Prop :=
+  match o with
+  | Compute _ => False
+  | AddPre j => j <> i
+  | RemoveNode j => j <> i
+  | _ => True
+  end.
+
+Lemma keeps_answer : forall ops st i, Forall (keeps i) ops -> answer (fst (runR st ops)) i = answer st i.
+Proof.
+  induction ops as [|o ops IH]; intros st i H; [reflexivity|]. inversion H as [|? ? Ho H']; subst.
+  rewrite run_cons. cbn [fst]. rewrite IH by assumption. unfold answer.
+  destruct o; cbn [step fst st_cache keeps] in *; try reflexivity.
+  - rewrite aget_aset. destruct (N.eqb_spec i0 i); [contradiction|reflexivity].
+  - rewrite aget_adel. destruct (N.eqb_spec i0 i); [contradiction|reflexivity].
+  - contradiction.
+Qed.
+
+(* ids that no operation and no anchor set ever mentioned read 0 *)
+Definition mentions (i : N) (o : op RF) : Prop :=
+  match o with
+  | UpdLocal f t _ => f = i \/ t = i
+  | UpdStats j _ => j = i
+  | AddPre j => j = i
+  | _ => False
+  end.
+
+Definition unknown (st : state RF) (i : N) : Prop :=
+  ~ In i (st_pre st) /\ aget (st_cache st) i = None /\ ~ In i (@node_set RF st).
+
+Lemma upd_local_ends : forall (l : list (edge RF)) f t nv x,
+  In x (flat_map (fun e => [e_from e; e_to e]) (@upd_local RF l f t nv)) ->
+  In x (flat_map (fun e => [e_from e; e_to e]) l) \/ x = f \/ x = t.
+Proof.
+  induction l as [|e l IH]; intros f t nv x H; simpl in H.
+  - destruct H as [<-|[<-|[]]]; tauto.
+  - destruct ((e_from e =? f)%N && (e_to e =? t)%N) eqn:E.
+    + apply andb_true_iff in E. destruct E as [E1 E2]. apply N.eqb_eq in E1. apply N.eqb_eq in E2.
+      simpl in H. simpl. destruct H as [<-|[<-|H]]; tauto.
+    + simpl in H. simpl. destruct H as [<-|[<-|H]]; try tauto. apply IH in H. tauto.
+Qed.
+
+Lemma unknown_step : forall st o i, wf st -> unknown st i -> ~ mentions i o -> unknown (fst (stepR st o)) i.
+Proof.
+  intros st o i Hwf [Hp [Hc Hn]] Hm. unfold unknown, node_set in *.
+  destruct o; cbn [step fst st_pre st_cache st_local st_stats mentions] in *.
+  - split; [assumption|]. split; [assumption|]. intro H. apply Hn. apply (proj1 (dedupN_In _ _)) in H. apply dedupN_In.
+    apply in_app_or in H. apply in_or_app. destruct H as [H|H]; [|now right].
+    apply upd_local_ends in H. destruct H as [H|[H|H]]; [now left|subst; tauto|subst; tauto].
+  - split; [assumption|]. split; [assumption|]. intro H. apply Hn. apply (proj1 (dedupN_In _ _)) in H. apply dedupN_In.
+    apply in_app_or in H. apply in_or_app. destruct H as [H|H]; [now left|right].
+    rewrite map_fst_aset in H. destruct (memN i0 (map fst (st_stats st))); [assumption|].
+    apply in_app_or in H. destruct H as [H|[H|[]]]; [assumption|subst; contradiction].
+  - split; [|split; [|assumption]].
+    + destruct (memN i0 (st_pre st)); [assumption|]. intro H. apply in_app_or in H. destruct H as [H|[H|[]]]; [contradiction|subst; contradiction].
+    + rewrite aget_aset. destruct (N.eqb_spec i0 i); [contradiction|assumption].
+  - split; [|split; assumption]. intro H. apply filter_In in H. tauto.
+  - split; [assumption|]. split.
+    + rewrite aget_adel. destruct (i0 =? i)%N; [reflexivity|assumption].
+    + intro H. apply Hn. apply (proj1 (dedupN_In _ _)) in H. apply dedupN_In. apply in_app_or in H. apply in_or_app.
+      destruct H as [H|H]; [left|now right]. apply in_flat_map in H. destruct H as [e [He Hx]].
+      apply filter_In in He. apply in_flat_map. exists e. tauto.
+  - split; [assumption|]. split; [|assumption].
+    rewrite publish_get by (apply global_trust_nodup; assumption).
+    destruct (aget (@global_trust RF ln1p st d) i) eqn:E; [|assumption]. exfalso.
+    assert (Hin : In i (map fst (@global_trust RF ln1p st d))).
+    { destruct (in_dec N.eq_dec i (map fst (@global_trust RF ln1p st d))) as [H|H]; [assumption|].
+      apply aget_None in H. congruence. }
+    rewrite global_trust_keys in Hin by assumption. unfold node_set in Hin.
+    destruct (dedupN (flat_map (fun e : edge RF => [e_from e; e_to e]) (st_local st) ++ map fst (st_stats st))) eqn:En; [destruct Hin|].
+    unfold keys, extra_anchors, node_set in Hin. rewrite En in Hin. apply in_app_or in Hin.
+    destruct Hin as [H|H]; [contradiction|]. apply filter_In in H. tauto.
+  - split; [assumption|split; assumption].
+Qed.
+
+Lemma unknown_run : forall ops st i, wf st -> unknown st i -> Forall (fun o => ~ mentions i o) ops ->
+  unknown (fst (runR st ops)) i.
+Proof.
+  induction ops as [|o ops IH]; intros st i Hwf Hu Hm; [exact Hu|]. inversion Hm; subst.
+  rewrite run_cons. cbn [fst]. apply IH; [apply wf_step; assumption|apply unknown_step; assumption|assumption].
+Qed.
+
+Lemma unknown_init : forall pre i, ~ In i pre -> unknown (@init RF pre) i.
+Proof.
+  intros pre i H. unfold unknown, init. cbn [st_pre st_cache]. split; [rewrite dedupN_In; assumption|]. split.
+  - apply aget_None. rewrite map_map. cbn [fst]. rewrite map_id. rewrite dedupN_In. assumption.
+  - unfold node_set. cbn. intros [].
+Qed.
+
+End Ops.
